@@ -9,7 +9,7 @@ RULE = ("seeded op scripts over 3 container variables per case: vector / small_v
         "resize with and without value, clear, front/back/[], ==, copy/move construction, copy/move assignment, swap), "
         "the three container variables of a script live on three different instances of a stateful allocator (swap / move / copy between them); "
         "dyn_array, stack, frg::list, two intrusive_lists over 6 objects (push_front/back, insert before front/middle/back/end, "
-        "erase by role, pop, clear, splice); element types uint64_t, copy/move-observable (vh::TV + self pointer), move-only, and for vector (the only container with ==) double incl. +-0.0/NaN/+-inf and a padded POD compared by key only; "
+        "erase by role, pop, clear, splice); element types uint64_t, copy/move-observable (vh::TV + self pointer), move-only, and for vector (the only container with ==) double incl. +-0.0/NaN/+-inf and a padded POD compared by key only; for vector and small_vector an alignas(64) tracked type (aligned allocator, adjacent container objects, oracle alignment); Bag with (count, fill) and initializer_list constructors for every operation that forwards constructor arguments (emplace2/resize2, reference std::vector emplace_back); "
         "resize targets at 0, size+-1, cap-1, cap, cap+1, N-1, N, N+1, 2N+2; non-trivial = distinct script of >= 8 ops")
 TRUSTED = ["extraction: ExtrOcamlBasic only; OCaml 4.13.1; comp/seq/driver.ml",
            "correspondence harness comp/seq/harness.cpp (g++ -fsanitize=address,undefined, -fno-access-control)",
